@@ -23,7 +23,7 @@ GEN = ["qsshift"]
 LEAN = ["Ymq.Props.C12"]
 AUDIT = "Ymq.Audit.C12"
 THEOREMS = ["Ymq.C12." + t for t in (
-    "siqs_identity").split()]
+    "siqs_identity siqs_identity_model eval_eq_polyVal min_trick gray_step roots_inv roots_walk poly_exact roots_exact hensel_lift mpqs_identity prepare_prime_exact qs_roots_exact lgblock_shift").split()]
 HYPOTHESES = []
 PROFILES = ["release", "chk"]
 TIMEOUT = 60.0
